@@ -132,7 +132,7 @@ SPEC = {
     "harness": "c05",
     "race": True,
     "theorems": ["C05_linearizable", "C05_linearizable_open", "C05_linearizable_close", "C05_recorded_wrapped_history_linearizable", "C05_checker_complete_on_model", "C05_checker_complete",
-                 "C05_lin_points_in_window", "C05_finished_complete", "C05_iterate_snapshot", "C05_iterate_one_instant",
+                 "C05_lin_points_in_window", "C05_no_effect_after_close", "C05_finished_complete", "C05_iterate_snapshot", "C05_iterate_one_instant",
                  "C05_well_locked", "C05_locks_exclusive", "C05_map_access_only_at_eff", "C05_deadlock_free",
                  "C05_code_well_bracketed", "C05_effects_are_C04_spec", "C05_commit_effects_are_C04_spec",
                  "C05_checker_sound", "C05_skeleton_get", "C05_skeleton_has", "C05_skeleton_set", "C05_skeleton_delete",
@@ -185,7 +185,7 @@ SPEC = {
                 "every schedule: the ghost linearisation (appended at the single atomic map access of each call / each write of a "
                 "Commit) is a sequential execution of the C04 ordered-map specification producing exactly the returned answers, "
                 "every linearisation point lies between its call's invocation and response and determines the response "
-                "(C05_linearizable, C05_linearizable_open, C05_finished_complete, C05_lin_points_in_window); the recorded history of every "
+                "(C05_linearizable, C05_linearizable_open, C05_finished_complete, C05_lin_points_in_window; C05_no_effect_after_close: a call invoked after a Close point never takes effect); the recorded history of every "
                 "trace is linearizable w.r.t. the full C04 contract including Close: "
                 "C05_linearizable_close; the very function drv_c05 runs accepts the history of every reachable trace of the model "
                 "(C05_checker_complete_on_model) and is a sound and complete decision procedure for linearizability of recorded "
